@@ -1,6 +1,7 @@
 package main
 
 import (
+	"strings"
 	"io"
 	"crypto/sha256"
 	"encoding/hex"
@@ -393,7 +394,14 @@ func digestTx(r TxResult) string {
 			h.Write([]byte{1})
 		}
 	}
-	lh := sha256.Sum256([]byte(r.Log))
+	l := r.Log
+	if i := strings.IndexByte(l, '\n'); i >= 0 {
+		l = l[:i] // a recovered panic's log carries a stack trace with addresses
+	}
+	if r.Code == 11 {
+		l = "out of gas"
+	}
+	lh := sha256.Sum256([]byte(l))
 	return fmt.Sprintf("code=%d gas=%d len=%d log=%s ev=%s", r.Code, r.GasUsed, r.Bytes, hex.EncodeToString(lh[:6]), hex.EncodeToString(h.Sum(nil)[:8]))
 }
 
